@@ -30,7 +30,14 @@ pub fn case(seed: u64, st: &mut Stats) {
             a.action = Some(if rng.coin() { Act::SetTrue } else { Act::SetFalse });
             if rng.chance(1, 2) {
                 let var = format!("CLAPV_{}", i);
-                if rng.chance(2, 3) {
+                if rng.coin() {
+                    // the documented pattern for flags with an environment variable: anything but a
+                    // false-like literal (or the empty string) switches the flag on
+                    a.vp = Some(Vp::Falsey);
+                    if rng.chance(2, 3) {
+                        env.insert(var.clone(), (*rng.pick(&["", "true", "false", "0", "no", "off", "x", "yes", "1", "FALSE", "n", " "])).to_string());
+                    }
+                } else if rng.chance(2, 3) {
                     env.insert(var.clone(), if rng.coin() { "true".into() } else { "false".into() });
                 }
                 a.env = Some(var);
@@ -230,6 +237,10 @@ pub fn case(seed: u64, st: &mut Stats) {
                     if let Some(v) = a.env.as_ref().and_then(|v| env.get(v)) {
                         if tv {
                             expect[i] = (Some(Src::Env), vec![split_tok(a, v)], None);
+                        } else if a.vp == Some(Vp::Falsey) {
+                            let falsey = v.is_empty() || ["n", "no", "f", "false", "off", "0"].contains(&v.to_ascii_lowercase().as_str());
+                            st.count(if v.is_empty() { "lattice.flag-env-empty" } else { "lattice.flag-env-falsey-parser" });
+                            expect[i] = (Some(Src::Env), vec![], Some(!falsey));
                         } else {
                             expect[i] = (Some(Src::Env), vec![], Some(v == "true"));
                         }
